@@ -35,9 +35,28 @@
 
 #include "layout.hh"
 
+#ifdef DWGREP_VERIF
+# include <map>
+# include <typeinfo>
+#endif
+
 class scon
 {
   std::vector <uint8_t> m_buf;
+
+#ifdef DWGREP_VERIF
+  // Shadow map of the states that are currently constructed in m_buf:
+  // offset -> size.  Maintained by con/des, consulted by get.
+  std::map <size_t, size_t> m_verif_live;
+  void verif_con (size_t off, size_t sz, char const *ty);
+  void verif_des (size_t off, size_t sz, char const *ty);
+  void verif_get (size_t off, size_t sz, char const *ty);
+
+public:
+  ~scon ();
+
+private:
+#endif
 
   void *
   mem (layout::loc loc)
@@ -52,6 +71,9 @@ public:
   State &
   get (layout::loc loc)
   {
+#ifdef DWGREP_VERIF
+    verif_get (loc.m_loc, sizeof (State), typeid (State).name ());
+#endif
     return *reinterpret_cast <State *> (this->mem (loc));
   }
 
@@ -59,6 +81,9 @@ public:
   void
   con (layout::loc loc, Args const&... args)
   {
+#ifdef DWGREP_VERIF
+    verif_con (loc.m_loc, sizeof (State), typeid (State).name ());
+#endif
     new (this->mem (loc)) State {args...};
   }
 
@@ -67,6 +92,9 @@ public:
   des (layout::loc loc)
   {
     this->get <State> (loc).~State ();
+#ifdef DWGREP_VERIF
+    verif_des (loc.m_loc, sizeof (State), typeid (State).name ());
+#endif
   }
 
   template <class State, class... Args>
